@@ -82,7 +82,7 @@ def parse_float_slow_positive_digit_comp : List Nat × Nat := ([64], 27922431572
 /-- `negative_digit_comp` in lexical-parse-float/src/slow.rs: integer literals in source order, and a hash of the token shape (literals abstracted) -/
 def parse_float_slow_negative_digit_comp : List Nat × Nat := ([1, 63, 0, 0, 0, 0, 0, 2, 0, 0, 2, 0, 2], 140685780466751)
 /-- `parse_mantissa` in lexical-parse-float/src/slow.rs: integer literals in source order, and a hash of the token shape (literals abstracted) -/
-def parse_float_slow_parse_mantissa : List Nat × Nat := ([0, 0, 0, 32, 0], 74831796280838)
+def parse_float_slow_parse_mantissa : List Nat × Nat := ([0, 0, 0, 32, 0], 236528340392834)
 /-- `byte_comp` in lexical-parse-float/src/slow.rs: integer literals in source order, and a hash of the token shape (literals abstracted) -/
 def parse_float_slow_byte_comp : List Nat × Nat := ([1, 63, 0, 1, 0, 1, 32, 1, 0, 0, 0, 0, 0], 271114166537569)
 /-- `compare_bytes` in lexical-parse-float/src/slow.rs: integer literals in source order, and a hash of the token shape (literals abstracted) -/
